@@ -25,4 +25,40 @@ CHECKS = {
         "expect_probes": ["pass_splits", "pass_merges", "pass_swaps", "fixpoint_checked", "pass_with_split_and_merge"],
         "assumptions": COMMON_ASSUME + ["momentum clauses are checked in the dm0 (semi-implicit) build, where nodes carry momentum"],
     },
+    "C03": {
+        "jobs": [{"variant": "asan_cm1_dm0", "workload": "w1", "focus": "C03", "share": 0.4, "chunk": 6},
+                 {"variant": "asan_cm1_dm1", "workload": "w1", "focus": "C03", "share": 0.2, "chunk": 6},
+                 {"variant": "asan_cm0_dm0", "workload": "w1", "focus": "C03", "share": 0.2, "chunk": 6},
+                 {"variant": "asan_cm2_dm0", "workload": "w1", "focus": "C03", "share": 0.2, "chunk": 6}],
+        "budget": {"quick": 75, "thorough": 1200},
+        "rule": "one case = one generated tissue (1-6 cells of all types, touching/overlapping layouts so that epithelial nodes couple) run for 8-90 real solver iterations on a team of 1-16 under a drawn schedule; at every update_nodes_positions the snapshot taken at entry is advanced by the reference integrator and compared node by node at exit; distinct = distinct event-log hash; non-trivial = at least 3 iterations integrated",
+        "expect_probes": ["c03_nodes_checked", "c03_coupled_pairs_checked"],
+        "assumptions": COMMON_ASSUME + ["nodes in non-mutual coupling chains (a->b, b->c) and, in contact model 2, multiply coupled nodes are outside the statement and skipped (counted in probes)", "per-node mass reference = cell mass getter / live nodes counted by the harness; the enclosed volume behind the mass is judged under C04"],
+    },
+    "C04": {
+        "jobs": [{"variant": "asan_cm1_dm0", "workload": "w1", "focus": "C04", "share": 0.8, "chunk": 6},
+                 {"variant": "asan_cm1_dm1", "workload": "w1", "focus": "C04", "share": 0.2, "chunk": 6}],
+        "budget": {"quick": 75, "thorough": 1200},
+        "rule": "one case = one tissue run with a drawn growth/division/removal scenario (zero, positive, negative growth, finite/infinite division volume and pressure cap, sigma>0, explicit growth-rate changes, jumping clock); reference cell-cycle law stepped beside the run per cell id; distinct = distinct event-log hash; non-trivial = at least 3 iterations",
+        "expect_probes": ["c04_cells_checked", "divisions", "removals", "random_props_checked", "division_failed_naturally"],
+        "assumptions": COMMON_ASSUME + ["pressure tolerance 1e-9 relative plus the rounding of a volume computed about the origin", "division eligibility is judged with a 1e-3 band around the division volume (the code tests the volume cached one step earlier)"],
+    },
+    "C08": {
+        "jobs": [{"variant": "asan_cm1_dm0", "workload": "w1", "focus": "C08", "share": 0.7, "chunk": 6},
+                 {"variant": "asan_cm0_dm0", "workload": "w1", "focus": "C08", "share": 0.15, "chunk": 6},
+                 {"variant": "asan_cm2_dm0", "workload": "w1", "focus": "C08", "share": 0.15, "chunk": 6}],
+        "budget": {"quick": 75, "thorough": 1200},
+        "rule": "one case = one tissue run whose history interleaves divisions and removals; at every phase that dereferences them (contact entry/exit, update_nodes_positions entry, mesh_writer entry) and at iteration end: list index == position, unique never-reused ids, coupling targets live nodes of another epithelial cell, face owner, face-type index in range; distinct = distinct event-log hash; non-trivial = at least 3 iterations",
+        "expect_probes": ["divisions", "removals", "simultaneous_divisions"],
+        "assumptions": COMMON_ASSUME,
+    },
+    "C15": {
+        "jobs": [{"variant": "asan_cm1_dm0", "workload": "w1", "focus": "C15", "share": 0.6, "chunk": 5},
+                 {"variant": "asan_cm1_dm0", "workload": "w2", "focus": "C15", "share": 0.4, "chunk": 25}],
+        "budget": {"quick": 75, "thorough": 1200},
+        "crash_kinds": {"deadlock": "deadlock"},
+        "rule": "one case = one non-interacting tissue run twice: on a team of 2-16 under a drawn schedule (rtc, permuted rtc, PCT depth 1-6, random walk, starvation) and on a team of one; population hashes (positions, momenta, connectivity; order independent) must agree after every iteration; plus refine_meshes on a team versus sequential refinement of copies; distinct = distinct event-log hash; non-trivial = at least 3 iterations",
+        "expect_probes": ["team_differential_runs", "refine_all", "divisions"],
+        "assumptions": COMMON_ASSUME + ["instruction-level races need the TSan free-running mode (not part of this check yet)"],
+    },
 }
